@@ -81,7 +81,8 @@ class Prop(BaseProp):
     def run_case(self, idx, rng):
         res = CaseResult()
         b = TBuilder(rng, p_doc=0.5, max_depth=3, max_items=5, compound_generic=False,
-                     kinds=["add_test", "add_test", "ct_add_test", "ct_add_test", "function", "plain", "block", "set"])
+                     kinds=["add_test", "add_test", "ct_add_test", "ct_add_test", "function", "plain", "block", "set"],
+                     helpers_in_tests=0.3)
         b.same_as_name = 0
         b.name_positions = set()
         b.section_names = []
